@@ -235,68 +235,56 @@ impl fmt::Display for Formatted<'_, Number> {
                 if s.is_sign_negative() { "-" } else { "" }
             )
         } else {
-            let mut frac = s.fract();
-            let mut whole = s.trunc().abs();
-            let mut dec = String::with_capacity(if frac == 0. {
-                0
-            } else {
-                self.format.precision
-            });
-
-            if frac != 0. {
-                let max_decimals = 16 - whole.log10().ceil() as usize;
-                for _ in 1..max_decimals.min(self.format.precision) {
-                    frac *= 10.;
-                    write!(dec, "{}", (frac as i8).abs())?;
-                    frac = frac.fract();
-                    if frac == 0. {
+            // The shortest decimal that round-trips, e.g. "0.3" for 0.1 + 0.2.
+            // (Display for f64 never uses an exponent.)
+            let text = s.abs().to_string();
+            let (int, frac) = text.split_once('.').unwrap_or((&text, ""));
+            let int_digits = if int == "0" { 0 } else { int.len() };
+            // At most `precision` decimals, and at most 16 significant digits.
+            let decimals = self
+                .format
+                .precision
+                .min(16_usize.saturating_sub(int_digits))
+                .min(frac.len());
+            let mut digits: Vec<u8> =
+                int.bytes().chain(frac.bytes().take(decimals)).collect();
+            if frac.as_bytes().get(decimals).is_some_and(|d| *d >= b'5') {
+                // Round half up, propagating the carry.
+                let mut i = digits.len();
+                loop {
+                    if i == 0 {
+                        digits.insert(0, b'1');
+                        break;
+                    }
+                    i -= 1;
+                    if digits[i] == b'9' {
+                        digits[i] = b'0';
+                    } else {
+                        digits[i] += 1;
                         break;
                     }
                 }
-                if frac != 0. {
-                    let end = (frac * 10.).round().abs() as u8;
-                    if end == 10 {
-                        loop {
-                            match dec.pop() {
-                                Some('9') => (),
-                                None => {
-                                    whole += 1.;
-                                    break;
-                                }
-                                Some(c) => {
-                                    dec.push(char::from(c as u8 + 1));
-                                    break;
-                                }
-                            }
-                        }
-                    } else if end == 0 {
-                        loop {
-                            match dec.pop() {
-                                Some('0') => (),
-                                None => break,
-                                Some(c) => {
-                                    dec.push(c);
-                                    break;
-                                }
-                            }
-                        }
-                    } else {
-                        write!(dec, "{end}")?;
-                    }
-                }
             }
+            let (whole, dec) = digits.split_at(digits.len() - decimals);
+            let dec_len =
+                dec.iter().rposition(|d| *d != b'0').map_or(0, |p| p + 1);
+            let dec = &dec[..dec_len];
+            let is_zero = dec.is_empty() && whole.iter().all(|d| *d == b'0');
 
-            if s.is_sign_negative() && (whole != 0. || !dec.is_empty()) {
+            if s.is_sign_negative() && !is_zero {
                 out.write_char('-')?;
             }
-
             let skip_zero = self.format.is_compressed();
-            if !(whole == 0. && skip_zero && !dec.is_empty()) {
-                write!(out, "{whole}")?;
+            if !(whole == b"0" && skip_zero && !dec.is_empty()) {
+                for d in whole {
+                    out.write_char(char::from(*d))?;
+                }
             }
-
             if !dec.is_empty() {
-                write!(out, ".{dec}")?;
+                out.write_char('.')?;
+                for d in dec {
+                    out.write_char(char::from(*d))?;
+                }
             }
             Ok(())
         }
